@@ -243,6 +243,10 @@ SUITES = {
          "all 676 tree shapes of depth 3, one ignore file, pattern set `x.sql`"),
     ],
 }
+# The transcription follows the code under test: since commit 3c3752e ("fix: ignore files inside a walked directory are
+# dropped for relative paths") the retention test compares absolute with absolute.  VF_C25_PREFIX=1 selects the
+# pre-fix transcription (only affects DRIFT reporting, e.g. when checking an older tree with VF_REPO).
+TRANSCRIPTION_FIXED = not os.environ.get("VF_C25_PREFIX")
 MODEL_SCOPE = dict(MaxDepth=3, MaxIgn=1, Kinds={".sqlfluffignore"}, AllShapes=False,
                    ExtChoices={SQL, SQLTXT}, CwdNames={"", "a"})
 
@@ -323,21 +327,23 @@ def run(tier: str, seed: int) -> int:
     os.environ["VF_C25_SCRATCH"] = base
     tabfile = os.path.join(base, "match.json")
     try:
-        # 1. the model: contract consistency, and Algo => Contract with / without the suggested repair of F1
+        # 1. the model.  The code under test carries the repair of F1 (commit 3c3752e: os.path.abspath(dirname) in the
+        #    retention test), so the transcription as written is FixInnerKeep = TRUE and must refine the contract;
+        #    the pre-fix retention test (FixInnerKeep = FALSE) is kept as a regression model: TLC must still find F1 in it.
         plain = ALLPATS - {"keep1"}
         with open(tabfile, "w") as fh:
             json.dump(match_tables(ALLPATS, 3), fh)
         m = _tlc(dict(MODEL_SCOPE, Pats=plain, FixInnerKeep=True), tabfile,
                  invariants=["ContractConsistent", "AbsoluteWithinContract", "RelativeWithinContract", "AlgoSpellingInvariant"])
-        expect_model_ok(m, "Discovery Algo (inner-spec retention repaired) => Contract")
-        rep.model(m, "transcription with os.path.abspath(dirname) in the retention test refines the contract "
-                     "(depth 3, one ignore file anywhere, 9 pattern sets)")
+        expect_model_ok(m, "Discovery Algo (absolute retention test) => Contract")
+        rep.model(m, "transcription as written (absolute retention test) refines the contract "
+                     "(depth 3, one ignore file anywhere, 9 pattern sets without the prune/negation clash)")
         m2 = _tlc(dict(MODEL_SCOPE, Pats=plain, FixInnerKeep=False), tabfile,
                   invariants=["AbsoluteWithinContract", "RelativeWithinContract"], expect_violation=True)
-        rep.model(m2, "transcription as written: TLC counterexample expected (F1)")
-        rep.extra["model_as_written_violates"] = m2.violated
+        rep.model(m2, "pre-fix retention test keyed on the path spelling: TLC counterexample expected (F1)")
+        rep.extra["prefix_model_violates"] = m2.violated
         if m2.violated != "RelativeWithinContract":
-            rep.drift.append(f"the transcription as written no longer violates RelativeWithinContract (TLC: {m2.violated})")
+            raise MachineryError(f"the pre-fix Discovery model no longer exhibits F1 (TLC: {m2.violated})")
         # 2. S->C: enumerate every world/query of every suite, replay into the real code
         sampled = []
         only = [x for x in os.environ.get("VF_C25_ONLY", "").split(",") if x]     # development aid: restrict the suites
@@ -346,7 +352,7 @@ def run(tier: str, seed: int) -> int:
                 continue
             with open(tabfile, "w") as fh:
                 json.dump(match_tables(consts["Pats"], consts["MaxDepth"]), fh)
-            e = _tlc(dict(consts, FixInnerKeep=False), tabfile, invariants=["ContractConsistent"], timeout=3000)
+            e = _tlc(dict(consts, FixInnerKeep=TRANSCRIPTION_FIXED), tabfile, invariants=["ContractConsistent"], timeout=3000)
             expect_model_ok(e, f"Discovery enumeration ({name})")
             rep.model(e, f"suite {name}: {what}")
             worlds = e.records
